@@ -21,6 +21,3 @@ Lemma shipped_v1_validates : p_validates (fe_v1 KReg) = true. Proof. reflexivity
 Lemma shipped_response_type : Generated.RegProto.response_type = RESPONSE_TYPE.
 Proof. reflexivity. Qed.
 
-(* the hand-written records of Model/Registerer.v are what the translator finds in the repaired source *)
-Lemma shipped_v2_is_fixed : fe_v2 = fe_of proto_v2_fixed proto_v2_fixed. Proof. reflexivity. Qed.
-Lemma shipped_v1_is_fixed : fe_v1 = fe_of proto_v1_fixed proto_v1_fixed. Proof. reflexivity. Qed.
